@@ -176,6 +176,7 @@ inductive Obs where
   | pending
   | timeout
   | sendErr
+  | skipped                      -- drvOp: request discarded, its ID was no longer in use
   deriving Repr, DecidableEq
 
 def routeSearch (s : St) (c : Nat) (f : Frame) : St :=
@@ -283,6 +284,9 @@ def step (s : St) (e : Ev) : Option (St × Obs) :=
       | none => none
       | some o =>
         let s0 := { s with opQ := rest, ops := s.ops.set i { o with phase := .taken } }
+        -- the ID was released while the request waited in the queue (its scrub overtook it):
+        -- the request is neither sent nor registered, the op tuple is dropped (fix F15)
+        if !s.inUse.contains o.id then some ({ s0 with ops := dropSender s0.ops i }, .skipped) else
         let s1 := match o.kind, o.chan with
           | .search, some c => { s0 with searchmap := insert s0.searchmap o.id c }
           | _, _ => s0
